@@ -1,5 +1,6 @@
 """MIR-engine harnesses over package structures: C03 (digest verification), C02 (signature verification decision
 logic), C05 (accessors), C09 (header assembly), C01/C04 Level H (whole headers)."""
+import os
 import z3
 
 import intrinsics
@@ -1648,7 +1649,19 @@ REPLAYERS["c16"] = (lambda prev: (lambda ctx, fl: replay_clear(ctx, fl) if fl.ge
 # ---------------------------------------------------------------------------------------------------------
 # C17: the builder's file destination handling (PackageBuilder::add_data) never panics
 # ---------------------------------------------------------------------------------------------------------
+def _pfe_dir_index():
+    """position of the `dir` field in PackageFileEntry, read from the repository's source"""
+    import re as _re
+    from symex import REPO_ROOT
+    txt = open(os.path.join(REPO_ROOT[0], "src", "rpm", "headers", "types.rs")).read()
+    m = _re.search(r"pub struct PackageFileEntry \{(.*?)\n\}", txt, _re.S)
+    names = _re.findall(r"^\s*pub(?:\(crate\))? (\w+):", m.group(1), _re.M)
+    return names.index("dir")
+
+
 def c17_dest(ctx, n, alphabet=b"/.a"):
+    global PFE_DIR
+    PFE_DIR = _pfe_dir_index()
     ad = ctx.impl_fn("add_data", None, "PackageBuilder")
     ex = Exec(ctx.funcs, intrinsics.I, max_steps=400000)
     ctx.stats = ex.stats
@@ -1667,7 +1680,7 @@ def c17_dest(ctx, n, alphabet=b"/.a"):
         exc = Exec(ctx.funcs, intrinsics.I)
         exc.run_all(lambda e: ([z3.BitVecVal(c, 8) for c in dest], [z3.BitVecVal(1, 8), z3.BitVecVal(2, 8)]), body, lambda e, i, o: res.append(o))
         k, v = res[0]
-        return "panic" if k != "return" else ("ok" if v.variant == "Ok" else "err")
+        return "panic" if k != "return" else ("ok" if v[0].variant == "Ok" else "err")
 
     def body(e, inp):
         d, content = inp
@@ -1677,15 +1690,32 @@ def c17_dest(ctx, n, alphabet=b"/.a"):
         b = Adt("PackageBuilder", "PackageBuilder", fields)
         opts = Adt("FileOptions", "FileOptions", [string(d), string(b"root"), string(b"root"), string(b""), Adt("FileMode", "Regular", [Int(0o664, "u16")]),
                                                   Opaque("FileFlags"), Bool_(False), Adt("Option", "None"), Opaque("FileVerifyFlags")])
-        return e.call_fn(ad, [Ref(Cell(b)), byte_vec(content), Adt("Timestamp", "Timestamp", [Int(0, "u32")]), opts])
+        r = e.call_fn(ad, [Ref(Cell(b)), byte_vec(content), Adt("Timestamp", "Timestamp", [Int(0, "u32")]), opts])
+        return r, fields[10], fields[11]
 
     def on_path(e, inp, out):
         k, v = out
         dest = model_bytes(e, inp[0])
-        ctx.cover("destination accepted", k == "return" and v.variant == "Ok")
-        ctx.cover("destination rejected", k == "return" and v.variant == "Err")
+        ctx.cover("destination accepted", k == "return" and v[0].variant == "Ok")
+        ctx.cover("destination rejected", k == "return" and v[0].variant == "Err")
         if k != "return":
             ctx.fail("adding a file with this destination panics: %s" % (v,), "PackageBuilder::add_data", kind="c17", dest=dest.hex())
+            return
+        # the invariant build() relies on (prepare_data looks every file's directory up in `directories` and unwraps):
+        # each stored file entry's `dir` is a member of the builder's directory set
+        r, files, dirs = v
+        for fe in files.vals:
+            d = fe.fields[PFE_DIR] if isinstance(fe, Adt) else None
+            if d is None:
+                continue
+            member = z3.Or([intrinsics2._eq_any(e, d, kd) for kd in dirs.keys] + [z3.BoolVal(False)])
+            if e._check(z3.Not(member)):
+                e.solver.push()
+                e.solver.add(z3.Not(member))
+                dest2 = model_bytes(e, inp[0])
+                e.solver.pop()
+                ctx.fail("a stored file's directory is missing from the builder's directory table (build() unwraps that lookup)", "PackageBuilder::add_data", kind="c17build", dest=dest2.hex())
+                return
 
     # translator validation of the std::path model: concrete destinations through the interpreter and through the real builder
     vectors = [b"/a", b"./a", b"/a/b", b"/", b"//", b"/.", b"/./a", b"./a/b", b"a", b"", b"/a/", b"/a//b", b"./", b"/a/./b", b"/a/.b", b"/..a", b"./.a", b"/.../a"]
@@ -1746,8 +1776,14 @@ def replay_c17(ctx, fl):
         ans = ctx.native.ask("build_level", fl["which"], str(fl["level"]))
         return ans == "panic", "real crate (dev profile): PackageBuilder::new(..).compression(CompressionWithLevel::%s(%d)).build() -> %s" % (fl["which"], fl["level"], ans)
     if fl.get("kind") == "c17caps":
-        a, b = ctx.native.ask("fcaps", fl["text"]).split()
+        ans = ctx.native.ask("fcaps", fl["text"])
+        if ans.startswith("panic"):
+            return True, "real crate: FileOptions::caps / FileCaps::from_str(%r) -> panic" % (bytes.fromhex(fl["text"]),)
+        a, b = ans.split()
         return a != b, "real crate: FileOptions::caps accepts=%s, FileCaps::from_str accepts=%s" % (a, b)
+    if fl.get("kind") == "c17build":
+        ans = ctx.native.ask("with_file_build", fl["dest"])
+        return ans == "panic", "real crate: PackageBuilder::with_file(.., FileOptions::new(%r))?.build() -> %s" % (bytes.fromhex(fl["dest"]), ans)
     ans = ctx.native.ask("with_file", fl["dest"])
     return ans == "panic", "real crate: PackageBuilder::with_file(.., FileOptions::new(%r)) -> %s" % (bytes.fromhex(fl["dest"]), ans)
 
